@@ -538,4 +538,34 @@ theorem mapOpt_get {α β} (f : α → Option β) (l : List α) (out : List β) 
           simp only [List.getElem?_cons_succ, List.getElem_cons_succ]
           exact ih bs hxs k (Nat.lt_of_succ_lt_succ hk)
 
+/-! ## exact multiplicities of merged rows -/
+
+theorem count_map_append_left (l r : Row) (M : List Row) :
+    (M.map (fun x => l ++ x)).count (l ++ r) = M.count r := by
+  induction M with
+  | nil => rfl
+  | cons m ms ih =>
+    simp only [List.map_cons, List.count_cons, ih]
+    congr 1
+    by_cases h : m = r
+    · subst h; simp
+    · have : ¬ (l ++ m = l ++ r) := fun hh => h (List.append_cancel_left hh)
+      simp [h, this]
+
+theorem count_map_append_other (l l' r : Row) (hlen : l'.length = l.length) (hne : l' ≠ l) (M : List Row) :
+    (M.map (fun x => l' ++ x)).count (l ++ r) = 0 := by
+  apply List.count_eq_zero.mpr
+  intro hm
+  obtain ⟨x, _, hx⟩ := List.mem_map.mp hm
+  exact hne (List.append_inj hx hlen).1
+
+theorem count_filter_ite {α} [BEq α] [LawfulBEq α] (p : α → Bool) (a : α) (l : List α) :
+    (l.filter p).count a = if p a then l.count a else 0 := by
+  by_cases h : p a = true
+  · rw [if_pos h]; exact List.count_filter h
+  · rw [if_neg h]
+    apply List.count_eq_zero.mpr
+    intro hm
+    exact h (List.mem_filter.mp hm).2
+
 end Csvq.Rel
